@@ -145,6 +145,11 @@ def main(argv):
                 bounded = {"evaluations": 1, "distinct_nontrivial": 0, "rule": "bounded stand-in aborted by an exception raised inside the code under test", "samples": [], "exhaustive": False}
             else:
                 broken.append(f"bounded stand-in crashed: {type(e).__name__}: {e}\n{traceback.format_exc()[-1200:]}")
+    kf = load_json(os.path.join(ROOT, "known_findings.json"), {"findings": []})
+
+    def is_known(v):
+        return any(k.get("property") == pid and k.get("status") == "open" and any(fnmatch.fnmatch(v["sig"], p) for p in k.get("sig_patterns", [])) for k in kf.get("findings", []))
+
     structural_undecided = []
     for full, unit_id, name, o in refuted:
         rep = None
@@ -163,7 +168,7 @@ def main(argv):
             v["replayed"] = True
         else:
             # any native failure found by the enumerator for the same property backs the refutation
-            nat = [x for x in violations if x["source"] == "bounded(native)"]
+            nat = [x for x in violations if x["source"] == "bounded(native)" and not is_known(x)]
             if nat:
                 v["input"] = nat[0].get("input")
                 v["native"] = nat[0].get("what")
@@ -180,7 +185,6 @@ def main(argv):
     undecided.extend(structural_undecided)
 
     # ---- known findings
-    kf = load_json(os.path.join(ROOT, "known_findings.json"), {"findings": []})
     known_lines, new_violations = [], []
     for v in violations:
         hit = None
